@@ -230,23 +230,23 @@ theorem body_ok {all : List String} {T : C.TyEnv} {s : Stmt} : ∀ {te te' : C.T
     exact okNested_ext ⟨hsub, hT⟩ hok
 
 theorem body_tr {all : List String} {T : C.TyEnv} {s : Stmt} : ∀ {te : C.TyEnv} {r : Stmt × C.TyEnv},
-    trBody2 te s = .ok r → s.okNested all T = true → trNested T false 1 s = .ok r.1 := by
+    trBody2 te s = .ok r → Sub r.2 T → s.okNested all T = true → trNested T false 1 s = .ok r.1 := by
   induction s with
-  | skip => intro te r h _; simp only [trBody2] at h; cases h; rfl
+  | skip => intro te r h _ _; simp only [trBody2] at h; cases h; rfl
   | seq a b iha ihb =>
-    intro te r h hok
+    intro te r h hsub hok
     obtain ⟨r1, r2, h1, h2, rfl⟩ := trBody2_seq_cases h
     simp only [Stmt.okNested, Bool.and_eq_true] at hok
-    rw [trNested, iha h1 hok.1, ok_bind, ihb h2 hok.2, ok_bind]; rfl
+    rw [trNested, iha h1 (Sub_trans (trBody2_sub h2) hsub) hok.1, ok_bind, ihb h2 hsub hok.2, ok_bind]; rfl
   | assign x e =>
-    intro te r h hok
+    intro te r h _ hok
     obtain ⟨h1, _⟩ := trBody2_assign_cases h
     simp only [Stmt.okNested, Bool.and_eq_true, beq_iff_eq] at hok
     rw [trNested, hok.2, h1]; rfl
   | _ =>
-    intro te r h hok
-    obtain ⟨h1, _⟩ := trBody2_other_cases (by rfl) h
-    exact trNested_ext hok h1
+    intro te r h hsub hok
+    obtain ⟨h1, h2⟩ := trBody2_other_cases (by rfl) h
+    exact trNested_ext (by rw [h2] at hsub; exact hsub) hok h1
 
 theorem body_eqv {all : List String} {s : Stmt} : ∀ {te te₂ te' : C.TyEnv} {r : Stmt × C.TyEnv}, Eqv te te₂ →
     s.okBody2 all te = some te' → trBody2 te₂ s = .ok r → Eqv te' r.2 := by
@@ -520,7 +520,7 @@ theorem else_spec_body {all : List String} {e : Stmt} {te te₂ teE : C.TyEnv} {
     · cases hx
   · intro T hsub hT
     have hok := body_ok hE hsub hT
-    exact ⟨hok, body_tr hTr hok⟩
+    exact ⟨hok, body_tr hTr (Sub_trans heq.sub' hsub) hok⟩
 
 theorem else_spec (all : List String) (e : Stmt) (ih : ChainSpec all e) : ElseSpec all e := by
   intro te te₂ teE re he hE hEt
@@ -618,7 +618,7 @@ theorem chain_spec (all : List String) (s : Stmt) : ChainSpec all s := by
       have hcw := (wt_sub (Sub_trans (Sub_trans (Sub_append _ _) (Sub_append _ _)) hsub) c hcwt).1
       refine ⟨?_, ?_⟩
       · simp only [Stmt.okNested, Bool.and_eq_true]; exact ⟨⟨hcw, hok1⟩, hok2⟩
-      · rw [trNested, body_tr hrt hok1, ok_bind, htr2, ok_bind]; rfl
+      · rw [trNested, body_tr hrt (Sub_trans heqT.sub' (Sub_trans hsT hsub)) hok1, ok_bind, htr2, ok_bind]; rfl
   | _ =>
     intro te te₂ teR r he h h2
     simp only [Stmt.okChain2] at h
@@ -635,6 +635,8 @@ theorem trNested_false_d (s : Stmt) : ∀ (te : C.TyEnv) (d d' : Nat), trNested 
   | seq a b iha ihb => intro te d d'; rw [trNested, trNested, iha te d d', ihb te d d']
   | assign x e => intro te d d'; simp only [trNested]
   | aug x op e => intro te d d'; simp only [trNested]
+  | tuple k xs es => intro te d d'; simp only [trNested]
+  | ctuple k ts xs es => intro te d d'; simp only [trNested]
   | ifs c a b iha ihb => intro te d d'; rw [trNested, trNested, iha te d d', ihb te d d']
   | whileLoop c b ihb => intro te d d'; rw [trNested, trNested, ihb te (d+1) (d'+1)]
   | forRange i n b ihb => intro te d d'; rw [trNested, trNested, ihb _ (d+1) (d'+1)]
@@ -711,7 +713,7 @@ theorem trTop2_block_cases {all : List String} {s : Stmt} (hs : isBlock s = true
     refine ⟨_, _, rfl, heq, fun hk => Fresh_newDecls _ (trBody2_keys hr hk), hnm, ?_, ?_⟩
     · simp only [Stmt.okNested, Bool.and_eq_true]
       exact ⟨(wt_sub (Sub_trans (okBody2_sub h2) heq.sub) c hcwt).1, hokb⟩
-    · rw [trNested, show (0 : Nat) + 1 = 1 from rfl, body_tr hr hokb, ok_bind]; rfl
+    · rw [trNested, show (0 : Nat) + 1 = 1 from rfl, body_tr hr (Sub_trans (body_eqv he h2 hr).sub' heq.sub) hokb, ok_bind]; rfl
   | forRange i n b =>
     simp only [Stmt.okTop2] at h2
     split at h2
@@ -788,7 +790,7 @@ theorem trTop2_block_cases {all : List String} {s : Stmt} (hs : isBlock s = true
         rw [← heq x, lookup_filter_ne, if_pos hxi]
         exact hsubB x t (by rw [lookup_cons_ne _ _ hxi]; exact hx)
       exact ⟨⟨⟨⟨(wt_sub hsubte n hnwt).1, hiall⟩, hTi⟩, hnv⟩, hokb⟩
-    · rw [trNested, if_neg (by rw [hTi]; simp), show (0 : Nat) + 1 = 1 from rfl, body_tr hr hokb, ok_bind]; rfl
+    · rw [trNested, if_neg (by rw [hTi]; simp), show (0 : Nat) + 1 = 1 from rfl, body_tr hr (Sub_trans heqB.sub' hsubT) hokb, ok_bind]; rfl
   | _ => simp [isBlock] at hs
 
 
@@ -798,6 +800,8 @@ theorem trTop2_block_cases {all : List String} {s : Stmt} (hs : isBlock s = true
 def isSimple : Stmt → Bool
   | .assign _ _ => true
   | .aug _ _ _ => true
+  | .tuple _ _ _ => true
+  | .ctuple _ _ _ _ => true
   | .write _ => true
   | .sleep _ => true
   | .brk => true
@@ -950,7 +954,7 @@ theorem top_step {all : List String} {tef : C.TyEnv} {s0 : Store} {F f : Nat}
     TopOut tef s0 te1 stp' (execList tef F [s'] stc) := by
   have hext : Ext all te1 tef := ⟨hsub, fun x hx => .inr (hallf x hx)⟩
   have hokf := okNested_ext hext hok
-  have htrf := trNested_ext hokf htr
+  have htrf := trNested_ext hext.1 hokf htr
   have hsim := Sim1_mono hle ((sim all f).1 tef false 0 _ s' stp stc stp' hokf hall htrf hst hpy)
   rw [execList_single]
   rcases hsim with ⟨stc', hc, hr⟩ | hc
@@ -1116,7 +1120,8 @@ theorem C01_partial_promotion_aux (p : Prog) (c : CProg) (N fuel : Nat) (t : Lis
     rw [hokTop] at hin
     simp only at hin
     have hpreall : ∀ x ∈ pre.assigned, x ∈ all := hall1
-    unfold tr2 at htr
+    replace htr := (tr2_ok htr).2
+    unfold tr2Core at htr
     obtain ⟨acc, hacc, htr⟩ := bind_ok htr
     simp only at htr
     unfold Py.run at hpy
@@ -1281,9 +1286,12 @@ theorem trTop2_of_trTop (s : Stmt) : ∀ (acc acc1 : TopAcc), trTop acc s = .ok 
   | _ => intro acc acc1 h; exact h
 
 theorem tr2_of_tr (p : Prog) (c : CProg) (htr : tr p = .ok c) : tr2 p = .ok c := by
-  unfold tr at htr
+  obtain ⟨hnum, htr⟩ := tr_ok htr
+  unfold trCore at htr
   obtain ⟨acc, hacc, htr⟩ := bind_ok htr
   unfold tr2
+  rw [if_pos hnum]
+  unfold tr2Core
   rw [trTop2_of_trTop _ _ _ hacc, ok_bind]
   exact htr
 
